@@ -21,8 +21,9 @@
    acknowledged a prefix >= k in term t) has no influence on any guard; the
    ghost-free forms are [leader_completeness_trace], [state_machine_safety],
    [committed_never_replaced]. *)
-From DB Require Import Model.RaftNet Proofs.RaftNetLists Proofs.RaftNetElection Proofs.RaftNetLog
-  Proofs.RaftNetCommitDefs Proofs.RaftNetCommit Proofs.RaftNetSafety.
+From DB Require Import Model.RaftNet Model.RaftNetSnap Proofs.RaftNetLists Proofs.RaftNetElection
+  Proofs.RaftNetLog Proofs.RaftNetCommitDefs Proofs.RaftNetCommit Proofs.RaftNetSafety
+  Proofs.RaftNetSnap.
 
 (* ================================================================== *)
 (* quorums *)
@@ -208,7 +209,7 @@ Definition e2 : entry := mkE 1 42.
    a client entry goes to index 2, node 2 and 3 replicate, node 1 commits index 2, node 2
    learns the commit from a heartbeat, node 2 restarts with commit 0, then node 3
    campaigns in term 2 with the votes of 2 and 3, becomes leader, replicates and commits *)
-Definition run1 : list label := [
+Definition run_a : list label := [
   LTimeout 1;
   LHigherTerm 2 1; LHandleRV 2 1 1 0 0;
   LBecomeLeader 1;
@@ -218,7 +219,7 @@ Definition run1 : list label := [
   LAdvanceCommit 1 2;
   LSendHB 1 2 2; LHandleHB 2 1 1 2 ].
 
-Definition run2 : list label := [
+Definition run_b : list label := [
   LHigherTerm 3 1; LHandleAE 3 1 1 0 0 [e1; e2] 0;
   LRestart 2 0;
   LTimeout 3;
@@ -236,26 +237,26 @@ Definition obs (o : option net) (i : id) : option (nat * role_t * list entry * n
   | None => None
   end.
 
-(* after run1: node 1 leads term 1 and nodes 1, 2 have committed [e1; e2] *)
+(* after run_a: node 1 leads term 1 and nodes 1, 2 have committed [e1; e2] *)
 Example run1_elects_and_commits :
-  obs (run V3 (init) run1) 1 = Some (1, Leader, [e1; e2], 2) /\
-  obs (run V3 (init) run1) 2 = Some (1, Follower, [e1; e2], 2) /\
-  obs (run V3 (init) run1) 3 = Some (0, Follower, [], 0).
+  obs (run V3 (init) run_a) 1 = Some (1, Leader, [e1; e2], 2) /\
+  obs (run V3 (init) run_a) 2 = Some (1, Follower, [e1; e2], 2) /\
+  obs (run V3 (init) run_a) 3 = Some (0, Follower, [], 0).
 Proof. vm_compute. repeat split. Qed.
 
-(* after run1 ++ run2: node 3 leads term 2, holds the entries committed in term 1, and
+(* after run_a ++ run_b: node 3 leads term 2, holds the entries committed in term 1, and
    everybody has committed [e1; e2; noop 2] *)
 Example run2_second_leader_is_complete :
-  obs (run V3 (init) (run1 ++ run2)) 3 = Some (2, Leader, [e1; e2; noop 2], 3) /\
-  obs (run V3 (init) (run1 ++ run2)) 2 = Some (2, Follower, [e1; e2; noop 2], 0) /\
-  obs (run V3 (init) (run1 ++ run2)) 1 = Some (2, Follower, [e1; e2; noop 2], 3).
+  obs (run V3 (init) (run_a ++ run_b)) 3 = Some (2, Leader, [e1; e2; noop 2], 3) /\
+  obs (run V3 (init) (run_a ++ run_b)) 2 = Some (2, Follower, [e1; e2; noop 2], 0) /\
+  obs (run V3 (init) (run_a ++ run_b)) 1 = Some (2, Follower, [e1; e2; noop 2], 3).
 Proof. vm_compute. repeat split. Qed.
 
 (* so the hypotheses of the theorems are satisfiable: the final state is reachable ... *)
 Example run2_reachable :
-  exists n, run V3 (init) (run1 ++ run2) = Some n /\ reachable V3 n.
+  exists n, run V3 (init) (run_a ++ run_b) = Some n /\ reachable V3 n.
 Proof.
-  destruct (run V3 (init) (run1 ++ run2)) as [n|] eqn:E; [|vm_compute in E; discriminate].
+  destruct (run V3 (init) (run_a ++ run_b)) as [n|] eqn:E; [|vm_compute in E; discriminate].
   exists n. split; [reflexivity|]. exact (RaftNetSafety.run_reachable V3 _ n E).
 Qed.
 
@@ -263,8 +264,130 @@ Qed.
    second vote in the same term for another candidate is refused, an AE that would cut
    committed entries does not exist in the soup *)
 Example disabled_labels :
-  run V3 (init) (run1 ++ [LBecomeLeader 2]) = None /\
+  run V3 (init) (run_a ++ [LBecomeLeader 2]) = None /\
   run V3 (init) [LTimeout 1; LTimeout 3; LHigherTerm 2 1; LHandleRV 2 1 1 0 0;
                  LHandleRV 2 1 3 0 0] = None /\
-  run V3 (init) (run1 ++ [LHandleAE 2 1 1 0 0 [mkE 1 7] 0]) = None.
+  run V3 (init) (run_a ++ [LHandleAE 2 1 1 0 0 [mkE 1 7] 0]) = None.
+Proof. vm_compute. repeat split. Qed.
+
+(* ================================================================== *)
+(* Stage 2: log compaction and InstallSnapshot (Model/RaftNetSnap.v)      *)
+(* ================================================================== *)
+
+(* A stage-2 state is a stage-1 state [base s] (whose node logs are the LOGICAL logs:
+   the compacted prefix is kept as ghost) + the snapshot index [first s i] of every node
+   + the snapshot messages sent.  What node i stores is
+   [stored s i = (first, term at first, entries after first)]. *)
+
+(* every reachable stage-2 state is a reachable stage-1 state with a bigger soup: the
+   soup [ms] holds, for every snapshot message (t, ldr, sidx, sterm), the Replicate
+   messages with every prev <= sidx that the snapshot stands for *)
+Theorem stage2_refines_stage1 : forall V, NoDup V -> forall s,
+  reachable2 V s ->
+  exists ms, reachable V (with_msgs (base s) ms) /\ R s ms.
+Proof. exact RaftNetSnap.stage2_refines_stage1. Qed.
+Print Assumptions stage2_refines_stage1.
+
+(* compaction never passes the commit index *)
+Theorem snapshot_is_committed : forall V s i,
+  reachable2 V s -> first s i <= commit (nodes (base s) i).
+Proof. exact RaftNetSnap.snapshot_is_committed. Qed.
+Print Assumptions snapshot_is_committed.
+
+Theorem election_safety2 : forall V, NoDup V -> forall s i j,
+  reachable2 V s ->
+  role (nodes (base s) i) = Leader -> role (nodes (base s) j) = Leader ->
+  term (nodes (base s) i) = term (nodes (base s) j) -> i = j.
+Proof. exact RaftNetSnap.election_safety2. Qed.
+Print Assumptions election_safety2.
+
+Theorem log_matching2 : forall V, NoDup V -> forall s i j k,
+  reachable2 V s ->
+  1 <= k -> k <= length (log (nodes (base s) i)) -> k <= length (log (nodes (base s) j)) ->
+  term_at (log (nodes (base s) i)) k = term_at (log (nodes (base s) j)) k ->
+  firstn k (log (nodes (base s) i)) = firstn k (log (nodes (base s) j)).
+Proof. exact RaftNetSnap.log_matching2. Qed.
+Print Assumptions log_matching2.
+
+Theorem leader_completeness2_trace : forall V, NoDup V -> forall s i k s1 ls s2 j,
+  reachable2 V s -> step2 V s (L2Base (LAdvanceCommit i k)) s1 -> steps2 V s1 ls s2 ->
+  role (nodes (base s2) j) = Leader ->
+  term (nodes (base s) i) < term (nodes (base s2) j) ->
+  firstn k (log (nodes (base s2) j)) = firstn k (log (nodes (base s) i)).
+Proof. exact RaftNetSnap.leader_completeness2_trace. Qed.
+Print Assumptions leader_completeness2_trace.
+
+Theorem state_machine_safety2 : forall V, NoDup V -> forall s a b k,
+  reachable2 V s -> k <= commit (nodes (base s) a) -> k <= commit (nodes (base s) b) ->
+  firstn k (log (nodes (base s) a)) = firstn k (log (nodes (base s) b)).
+Proof. exact RaftNetSnap.state_machine_safety2. Qed.
+Print Assumptions state_machine_safety2.
+
+(* ... and on what the nodes really store *)
+Theorem state_machine_safety2_stored : forall V, NoDup V -> forall s a b k j,
+  reachable2 V s -> k <= commit (nodes (base s) a) -> k <= commit (nodes (base s) b) ->
+  first s a < j -> first s b < j -> j <= k ->
+  nth_error (snd (stored s a)) (j - 1 - first s a)
+  = nth_error (snd (stored s b)) (j - 1 - first s b).
+Proof. exact RaftNetSnap.state_machine_safety2_stored. Qed.
+Print Assumptions state_machine_safety2_stored.
+
+Theorem committed_never_replaced2 : forall V, NoDup V -> forall s ls s' i k,
+  reachable2 V s -> steps2 V s ls s' -> k <= commit (nodes (base s) i) ->
+  firstn k (log (nodes (base s') i)) = firstn k (log (nodes (base s) i)).
+Proof. exact RaftNetSnap.committed_never_replaced2. Qed.
+Print Assumptions committed_never_replaced2.
+
+(* a snapshot stands for a committed prefix *)
+Theorem snapshot_content_committed : forall V, NoDup V -> forall s t ldr sidx sterm i k,
+  reachable2 V s -> In (IS t ldr sidx sterm) (snaps s) ->
+  k <= sidx -> k <= commit (nodes (base s) i) ->
+  firstn k (log (nodes (base s) i)) = firstn k (llog (base s) t) /\
+  sterm = term_at (llog (base s) t) sidx.
+Proof. exact RaftNetSnap.snapshot_content_committed. Qed.
+Print Assumptions snapshot_content_committed.
+
+(* restore() leaves (snapshot index, snapshot term, no entries), committed = snapshot index *)
+Theorem restore_stored : forall V, NoDup V -> forall s j t ldr sidx sterm s',
+  reachable2 V s -> step2 V s (L2HandleIS j t ldr sidx sterm) s' ->
+  commit (nodes (base s) j) < sidx -> term_at (log (nodes (base s) j)) sidx <> sterm ->
+  stored s' j = (sidx, sterm, []) /\ commit (nodes (base s') j) = sidx.
+Proof. exact RaftNetSnap.restore_stored. Qed.
+Print Assumptions restore_stored.
+
+Theorem step_fn2_sound : forall V s l s', step_fn2 V s l = Some s' -> step2 V s l s'.
+Proof. exact RaftNetSnap.step_fn2_sound. Qed.
+Print Assumptions step_fn2_sound.
+
+Theorem run2_sound : forall V ls s s', run2 V s ls = Some s' -> steps2 V s ls s'.
+Proof. exact RaftNetSnap.run2_sound. Qed.
+Print Assumptions run2_sound.
+
+(* non-vacuity: continue the run above; leader 3 compacts its log up to index 2, sends its
+   snapshot at index 3; node 2 (restarted, commit 0, has the entries) fast-forwards its
+   commit index; node 4 (a new non-voting node with an empty log) restores the snapshot *)
+Definition run_c : list label2 :=
+  map L2Base (run_a ++ run_b) ++
+  [ L2Compact 3 2; L2SendIS 3 3;
+    L2HandleIS 2 2 3 3 2;
+    L2Base (LHigherTerm 4 2); L2HandleIS 4 2 3 3 2 ].
+
+Definition obs2 (o : option net2) (i : id) :=
+  match o with
+  | Some s => Some (stored s i, commit (nodes (base s) i), log (nodes (base s) i))
+  | None => None
+  end.
+
+Example run_c_snapshot :
+  obs2 (run2 V3 init2 run_c) 3 = Some ((2, 1, [noop 2]), 3, [e1; e2; noop 2]) /\
+  obs2 (run2 V3 init2 run_c) 2 = Some ((0, 0, [e1; e2; noop 2]), 3, [e1; e2; noop 2]) /\
+  obs2 (run2 V3 init2 run_c) 4 = Some ((3, 2, []), 3, [e1; e2; noop 2]).
+Proof. vm_compute. repeat split. Qed.
+
+(* after compaction the leader cannot send a Replicate below its snapshot, and a node
+   cannot restart below its snapshot *)
+Example run_c_disabled :
+  run2 V3 init2 (run_c ++ [L2Base (LSendAE 3 1 1 0)]) = None /\
+  run2 V3 init2 (run_c ++ [L2Base (LRestart 4 0)]) = None /\
+  run2 V3 init2 (run_c ++ [L2Compact 2 4]) = None.
 Proof. vm_compute. repeat split. Qed.
